@@ -230,6 +230,35 @@ def _props_files(prop):
     return list(pf) if isinstance(pf, (list, tuple)) else [pf]
 
 
+def _requires(path):
+    """ONL modules a .v file requires (as relative paths)"""
+    try:
+        txt = re.sub(r"\(\*.*?\*\)", "", open(path).read(), flags=re.S)
+    except OSError:
+        return []
+    out = []
+    for m in re.finditer(r"From\s+ONL\s+Require\s+(?:Import|Export)\s+(.*?)\.(?=\s)", txt, flags=re.S):
+        for mod in m.group(1).split():
+            out.append(mod.replace(".", "/") + ".v")
+    for m in re.finditer(r"Require\s+(?:Import|Export)\s+(.*?)\.(?=\s)", txt, flags=re.S):
+        for mod in m.group(1).split():
+            if mod.startswith("ONL."):
+                out.append(mod[4:].replace(".", "/") + ".v")
+    return out
+
+
+def closure(files):
+    """the .v files (relative to coq/) the given files depend on, themselves included"""
+    seen, todo = set(), list(files)
+    while todo:
+        f = todo.pop()
+        if f in seen:
+            continue
+        seen.add(f)
+        todo.extend(_requires(os.path.join(COQ, f)))
+    return sorted(seen)
+
+
 def build_obligations(prop, thorough=False):
     """full .vo build of the closure of the property file(s); returns a dict describing what was discharged"""
     t0 = time.time()
@@ -241,11 +270,22 @@ def build_obligations(prop, thorough=False):
         names, printed = theorem_names(props_path)
         per_file.append((pf, props_path, names, printed))
         info["obligations"] += names
-    # hygiene
-    for f in coq_sources():
-        txt = re.sub(r"\(\*.*?\*\)", "", open(f).read(), flags=re.S)
+    import_files = []
+    for l in prop.coq_imports:
+        m = re.match(r"\s*From\s+ONL\s+Require\s+(?:Import|Export)\s+(.*?)\.\s*$", l)
+        if m:
+            import_files += [x.replace(".", "/") + ".v" for x in m.group(1).split()]
+    clo = closure(list(files) + import_files)
+    info["closure_files"] = len(clo)
+    # hygiene: on the closure of this property (models, proofs, statements)
+    for f in clo:
+        try:
+            txt = re.sub(r"\(\*.*?\*\)", "", open(os.path.join(COQ, f)).read(), flags=re.S)
+        except OSError:
+            info["hygiene"].append(f"{f}: missing file")
+            continue
         for m in HYGIENE.finditer(txt):
-            info["hygiene"].append(f"{os.path.relpath(f, COQ)}: {m.group(0)}")
+            info["hygiene"].append(f"{f}: {m.group(0)}")
     with Lock("coq.lock"):
         try:
             prop.pre_build()
@@ -255,51 +295,53 @@ def build_obligations(prop, thorough=False):
             info["wall_s"] = time.time() - t0
             return info
         regen_coqproject()
-        extra_targets = []
-        for l in prop.coq_imports:
-            m = re.match(r"\s*From\s+ONL\s+Require\s+(?:Import|Export)\s+(.*?)\.\s*$", l)
-            if m:
-                extra_targets += [x.replace(".", "/") + ".vo" for x in m.group(1).split()]
-        rc0, out = sh(["make", "-k", "-j16"] + extra_targets, 1500, cwd=COQ) if extra_targets else (0, "")
+        # everything the statements and the case files need, in one make (full .vo build, keep going)
+        targets = [f[:-2] + ".vo" for f in clo if f not in files]
+        rc0, out = sh(["make", "-k", "-j16"] + targets, 2400, cwd=COQ) if targets else (0, "")
         if rc0 != 0:
             info["log_tail"] = out[-3000:]
             info["model_build_errors"] = re.findall(r'File "\./([^"]+)", line (\d+)', out)[:5]
-        for (pf, props_path, names, printed) in per_file:
-            vo = props_path[:-2] + ".vo"
-            target = os.path.relpath(vo, COQ)
-            if os.path.exists(vo):
-                os.remove(vo)
-            cmd = ["make", "-j16", target]
-            rc1, out1 = sh(cmd, 1500, cwd=COQ)
-            info["log_tail"] = (info["log_tail"] + out1)[-4000:]
-            if thorough and rc1 == 0:
-                rc2, out2 = sh(["coqchk", "-silent", "-o", "-Q", ".", "ONL", "ONL." + target[:-3].replace("/", ".")], 1500, cwd=COQ)
-                info["coqchk_rc"] = max(rc2, info.get("coqchk_rc", 0))
-                info["coqchk_tail"] = out2[-3000:]
-                if rc2 != 0:
-                    rc1 = rc2
-                    info["log_tail"] += "\ncoqchk failed:\n" + out2[-3000:]
-            if rc1 != 0:
-                info["failed"] += names
-                m = re.search(r'File "\./([^"]+)", line (\d+)', out1)
-                if m:
-                    info["broken_at"] = f"{m.group(1)}:{m.group(2)}"
+    # the statement files themselves: always recompiled, one coqc each, output captured separately
+    from concurrent.futures import ThreadPoolExecutor
+
+    def compile_props(item):
+        pf, props_path, names, printed = item
+        rc1, out1 = sh(["coqc", "-Q", ".", "ONL", pf], 1500, cwd=COQ)
+        if thorough and rc1 == 0:
+            rc2, out2 = sh(["coqchk", "-silent", "-o", "-Q", ".", "ONL", "ONL." + pf[:-2].replace("/", ".")], 2400, cwd=COQ)
+            return rc1, out1, rc2, out2
+        return rc1, out1, None, ""
+    with ThreadPoolExecutor(max_workers=8) as ex:
+        results = list(ex.map(compile_props, per_file))
+    for (pf, props_path, names, printed), (rc1, out1, rc2, out2) in zip(per_file, results):
+        info["log_tail"] = (info["log_tail"] + out1[-1500:])[-4000:]
+        if rc2 is not None:
+            info["coqchk_rc"] = max(rc2, info.get("coqchk_rc", 0))
+            info["coqchk_tail"] = out2[-3000:]
+            if rc2 != 0:
+                rc1 = rc2
+                info["log_tail"] += "\ncoqchk failed:\n" + out2[-3000:]
+        if rc1 != 0:
+            info["failed"] += names
+            m = re.search(r'File "\./([^"]+)", line (\d+)', out1)
+            if m:
+                info["broken_at"] = f"{m.group(1)}:{m.group(2)}"
+            continue
+        ax = parse_assumptions(out1, printed)
+        info["axioms"].update(ax)
+        for n in names:
+            if n not in printed or n not in ax:
+                info["failed"].append(n)
                 continue
-            ax = parse_assumptions(out1, printed)
-            info["axioms"].update(ax)
-            for n in names:
-                if n not in printed or n not in ax:
-                    info["failed"].append(n)
-                    continue
-                bad = [a for a in ax[n] if a not in STDLIB_AXIOMS_ALLOWED and a not in prop.allowed_axioms]
-                if bad:
-                    info["failed"].append(n)
-                else:
-                    info["discharged"].append(n)
-        info["checker_cmd"] = (f"cd {COQ} && coq_makefile -f _CoqProject -o Makefile && make -j16 " +
-                               " ".join(f[:-2] + ".vo" for f in files) +
-                               "   (coqc 8.16.1, full .vo build of the closure; Print Assumptions under every theorem" +
-                               ("; coqchk -o on the closure" if thorough else "") + ")")
+            bad = [a for a in ax[n] if a not in STDLIB_AXIOMS_ALLOWED and a not in prop.allowed_axioms]
+            if bad:
+                info["failed"].append(n)
+            else:
+                info["discharged"].append(n)
+    info["checker_cmd"] = (f"cd {COQ} && coq_makefile -f _CoqProject -o Makefile && make -k -j16 <closure of the statement files: "
+                           f"{len(clo)} files> && coqc -Q . ONL " + " ".join(files) +
+                           "   (coqc 8.16.1, full .vo build; Print Assumptions under every theorem" +
+                           ("; coqchk -o on each statement file's closure" if thorough else "") + ")")
     if info["hygiene"]:
         info["failed"] = list(info["obligations"])
         info["discharged"] = []
